@@ -10,6 +10,7 @@ import (
 	"fmt"
 	"io"
 	"math"
+	"math/rand"
 	"net"
 	"os"
 	"path/filepath"
@@ -692,6 +693,13 @@ func execC20(r *Run) {
 	cfg := coordinate.DefaultConfig()
 	allNonNeg := true
 	cached := map[string]string{}
+	// "rejected without changing anything": a twin client that is handed only the accepted
+	// observations (same global-PRNG state at each one) must stay bit-identical to the node's
+	shadow, err := coordinate.NewClient(cfg)
+	if err != nil {
+		r.Fail("setup", "setup", "%v", err)
+		return
+	}
 	for idx, s := range r.C.Steps {
 		r.curStep = idx
 		if s.Op != "ping" {
@@ -744,6 +752,7 @@ func execC20(r *Run) {
 			cacheBefore = coordBits(cc)
 		}
 		other := &memberlist.Node{Name: peer, Addr: net.ParseIP("10.0.3.1").To4(), Port: 7946}
+		rand.Seed(int64(idx) + 1)
 		ping.NotifyPingComplete(other, rtt, payload)
 		c.Wait()
 		r.NonTrivial = true
@@ -756,6 +765,11 @@ func execC20(r *Run) {
 		if accepted && pc != nil && pc.Error < 0 {
 			allNonNeg = false
 		}
+		if accepted {
+			rand.Seed(int64(idx) + 1)
+			shadow.Update(peer, pc, rtt)
+		}
+		twin := coordBits(shadow.GetCoordinate())
 		r.Logf("ping %s kind=%s rtt=%v valid=%v -> coord err=%g height=%g", peer, s.S, rtt, valid, after.Error, after.Height)
 		// the local coordinate is always well formed
 		if len(after.Vec) != int(cfg.Dimensionality) {
@@ -787,6 +801,9 @@ func execC20(r *Run) {
 			if cacheAfter != coordBits(pc) {
 				r.Fail("accepted-observation-not-cached", "C20 not-cached", "accepted observation from %s is not what GetCachedCoordinate returns", peer)
 			}
+		}
+		if twin != coordBits(after) {
+			r.Fail("rejected-observation-left-a-trace", "C20 trace", "after %s the local coordinate %s differs from that of a twin client that was handed only the %d accepted observations (%s): an earlier rejected observation influenced a later update", s.String(), coordBits(after), r.Probes["accepted-observation"], twin)
 		}
 		cached[peer] = cacheAfter
 		if r.Failed() {
